@@ -214,9 +214,41 @@ func rcRootEnv(fd *ast.FuncDecl, param sval) *senv {
 func reconcileRule() string {
 	_, f := parseFile("core/task/manager.go")
 	pkg := loadSymPkg("core/task")
+	// the function that handles one taskman message: by name, or else the Manager method the exported
+	// Manager.Start hands each message of the channel to
 	fd := rcMethod(pkg, "Manager", "handleMessage")
 	if fd == nil {
-		die("Manager.handleMessage not found")
+		if st := rcMethod(pkg, "Manager", "Start"); st != nil {
+			ast.Inspect(st.Body, func(x ast.Node) bool {
+				if c, ok := x.(*ast.CallExpr); ok && len(c.Args) == 1 && fd == nil {
+					if cand := pkg.callee(c, "Manager"); cand != nil && recvTypeName(cand) == "Manager" && cand.Type.Params != nil && len(cand.Type.Params.List) == 1 &&
+						strings.Contains(rcSrc(cand.Type.Params.List[0].Type), "TaskmanMessage") {
+						fd = cand
+					}
+				}
+				return true
+			})
+		}
+	}
+	if fd == nil {
+		die("Manager.handleMessage not found (neither by name nor through Manager.Start)")
+	}
+	// the function a status is handed to when it is not answered with KILL: a method of the package
+	// that is given the status and sets the status of a task to ACTIVE somewhere
+	var updateFn *ast.FuncDecl
+	isStatusUpdater := func(cand *ast.FuncDecl) bool {
+		found := false
+		ast.Inspect(cand.Body, func(x ast.Node) bool {
+			if as, ok := x.(*ast.AssignStmt); ok && len(as.Lhs) == 1 && len(as.Rhs) == 1 {
+				if l, ok := as.Lhs[0].(*ast.SelectorExpr); ok && l.Sel.Name == "status" {
+					if r, ok := as.Rhs[0].(*ast.Ident); ok && r.Name == "ACTIVE" {
+						found = true
+					}
+				}
+			}
+			return true
+		})
+		return found
 	}
 	// Under which condition does handling a task status message send calls.Kill for the task of the
 	// status, and under which does it hand the status to updateTaskStatus?  (read semantically:
@@ -232,8 +264,11 @@ func reconcileRule() string {
 				return "kill"
 			}
 		}
-		if sel.Sel.Name == "updateTaskStatus" && len(c.Args) == 1 && w.val(c.Args[0], env).kind == svStatus {
-			return "update"
+		if len(c.Args) == 1 && w.val(c.Args[0], env).kind == svStatus {
+			if cand := w.pkg.callee(c, "Manager"); cand != nil && (cand.Name.Name == "updateTaskStatus" || isStatusUpdater(cand)) {
+				updateFn = cand
+				return "update"
+			}
 		}
 		return ""
 	}
@@ -318,14 +353,32 @@ func reconcileRule() string {
 	guarded := guardedAll
 
 	// scheduler.go: reconciliationCall and its place in the SUBSCRIBED chain
-	_, sf := parseFile("core/task/scheduler.go")
-	rc := rcMethod(pkg, "schedulerState", "reconciliationCall")
-	if rc == nil {
-		die("schedulerState.reconciliationCall not found")
+	// (core/task/scheduler.go and the other files of the package are read through pkg)
+	// the SUBSCRIBED chain of the event handler (whatever the function that builds it is called): what
+	// follows controller.TrackSubscription in it is read as the reconciliation handler - a factory
+	// call returning a closure, a method value, a method expression ...
+	var chain ast.Expr
+	for _, fds := range pkg.funcs {
+		for _, cand := range fds {
+			ast.Inspect(cand.Body, func(x ast.Node) bool {
+				kv, ok := x.(*ast.KeyValueExpr)
+				if !ok {
+					return true
+				}
+				if sel, ok := kv.Key.(*ast.SelectorExpr); ok && sel.Sel.Name == "Event_SUBSCRIBED" {
+					if chain != nil && chain != kv.Value {
+						die("more than one handler chain for scheduler.Event_SUBSCRIBED")
+					}
+					chain = kv.Value
+				}
+				return true
+			})
+		}
 	}
-	// the handler it returns: is the implicit RECONCILE sent on EVERY event it handles, or only under
-	// some condition (a latch, a counter, the state of the roster ...)?
-	rw := &symWalk{pkg: pkg, recvType: "schedulerState", markers: map[string]*form{}, maxDepth: 3}
+	if chain == nil {
+		die("no handler chain for scheduler.Event_SUBSCRIBED found in core/task")
+	}
+	rw := &symWalk{pkg: pkg, recvType: "schedulerState", markers: map[string]*form{}, maxDepth: 4, inlineAll: true}
 	rw.onCall = func(w *symWalk, c *ast.CallExpr, env *senv) string {
 		sel, ok := c.Fun.(*ast.SelectorExpr)
 		if !ok {
@@ -336,14 +389,14 @@ func reconcileRule() string {
 			case svReconcileImplicit:
 				return "reconcile"
 			case svReconcileExplicit:
-				die("reconciliationCall: the task list of the RECONCILE call is not nil (the model assumes implicit reconciliation)")
+				die("SUBSCRIBED chain: the task list of the RECONCILE call is not nil (the model assumes implicit reconciliation)")
 			}
 		}
 		return ""
 	}
-	rw.walk(rc.Body.List, fT, (&senv{}).child())
+	rw.calls(chain, fT, (&senv{}).child())
 	if rw.markers["reconcile"] == nil {
-		die("reconciliationCall no longer sends calls.Reconcile(calls.ReconcileTasks(nil))")
+		die("the SUBSCRIBED chain no longer sends calls.Reconcile(calls.ReconcileTasks(nil))")
 	}
 	everySubscribed := true
 	{
@@ -355,7 +408,7 @@ func reconcileRule() string {
 		}
 		sort.Strings(as)
 		if len(as) > 16 {
-			die("reconciliationCall: too many conditions (%d)", len(as))
+			die("SUBSCRIBED chain: too many conditions around the RECONCILE call (%d)", len(as))
 		}
 		for mask := 0; mask < 1<<len(as); mask++ {
 			if !rw.markers["reconcile"].eval(func(a string) bool {
@@ -370,31 +423,26 @@ func reconcileRule() string {
 			}
 		}
 	}
-	beh := findFunc(sf, "schedulerState", "buildEventHandler")
-	if beh == nil {
-		die("schedulerState.buildEventHandler not found")
-	}
-	okChain := false
-	ast.Inspect(beh.Body, func(x ast.Node) bool {
-		kv, ok := x.(*ast.KeyValueExpr)
-		if !ok {
-			return true
+	{
+		src := rcSrc(chain)
+		i := strings.Index(src, "TrackSubscription")
+		j := strings.Index(src, rw.where["reconcile"]+" ")
+		if rw.where["reconcile"] == "" {
+			j = strings.Index(src, "Reconcile") // sent by a closure written in the chain itself
 		}
-		if s, ok := kv.Key.(*ast.SelectorExpr); ok && s.Sel.Name == "Event_SUBSCRIBED" {
-			src := rcSrc(kv.Value)
-			i := strings.Index(src, "TrackSubscription")
-			j := strings.Index(src, "reconciliationCall")
-			if i >= 0 && j > i {
-				okChain = true
+		if i < 0 || j < i {
+			die("the SUBSCRIBED chain is not controller.TrackSubscription followed by the reconciliation handler (%s)", rw.where["reconcile"])
+		}
+	}
+	var run *ast.FuncDecl
+	for _, fds := range pkg.funcs {
+		for _, cand := range fds {
+			if rcHasCall(cand.Body, "controller", "WithFrameworkID") && rcHasCall(cand.Body, "controller", "Run") {
+				run = cand
 			}
 		}
-		return true
-	})
-	if !okChain {
-		die("buildEventHandler: the SUBSCRIBED chain is not TrackSubscription followed by reconciliationCall")
 	}
-	run := findFunc(sf, "", "runSchedulerController")
-	if run == nil || !rcHasCall(run.Body, "controller", "WithFrameworkID") || !rcHasCall(run.Body, "controller", "Run") {
+	if run == nil {
 		die("runSchedulerController: controller.Run is no longer given controller.WithFrameworkID")
 	}
 
@@ -430,9 +478,23 @@ func reconcileRule() string {
 	}
 
 	// doKillTasks (KillTasks / Cleanup): the ACTIVE tasks of the set get KILL; do the others too?
-	dk := findFunc(f, "Manager", "doKillTasks")
+	killLoop := func(n ast.Node) bool { return rcHasCall(n, "", "doKillTask") || rcHasCall(n, "", "killTask") }
+	dk := rcMethod(pkg, "Manager", "doKillTasks")
 	if dk == nil {
-		die("Manager.doKillTasks not found")
+		// by what it does: the Manager method the exported Cleanup calls that loops over tasks and kills
+		if cl := rcMethod(pkg, "Manager", "Cleanup"); cl != nil {
+			ast.Inspect(cl.Body, func(x ast.Node) bool {
+				if c, ok := x.(*ast.CallExpr); ok && dk == nil {
+					if cand := pkg.callee(c, "Manager"); cand != nil && killLoop(cand.Body) {
+						dk = cand
+					}
+				}
+				return true
+			})
+		}
+	}
+	if dk == nil {
+		die("Manager.doKillTasks not found (neither by name nor through Manager.Cleanup)")
 	}
 	killActive, killInactive := false, false
 	dkDefs := map[string]ast.Expr{}
@@ -480,10 +542,33 @@ func reconcileRule() string {
 		return res
 	}
 	ast.Inspect(dk.Body, func(x ast.Node) bool {
-		rs, ok := x.(*ast.RangeStmt)
-		if !ok || !(rcHasCall(rs.Body, "", "doKillTask") || rcHasCall(rs.Body, "", "killTask")) {
+		var over ast.Expr
+		switch l := x.(type) {
+		case *ast.RangeStmt:
+			if !killLoop(l.Body) {
+				return true
+			}
+			over = l.X
+		case *ast.ForStmt:
+			// index loop: for i := 0; i < len(set); i++
+			if !killLoop(l.Body) {
+				return true
+			}
+			ast.Inspect(l.Cond, func(y ast.Node) bool {
+				if c, ok := y.(*ast.CallExpr); ok && len(c.Args) == 1 {
+					if id, ok := c.Fun.(*ast.Ident); ok && id.Name == "len" {
+						over = c.Args[0]
+					}
+				}
+				return true
+			})
+			if over == nil {
+				die("doKillTasks: an index loop sends KILL to tasks the translator cannot identify")
+			}
+		default:
 			return true
 		}
+		rs := struct{ X ast.Expr }{over}
 		switch classify(rs.X) {
 		case "active":
 			killActive = true
@@ -500,7 +585,7 @@ func reconcileRule() string {
 
 	// updateTaskStatus: which Mesos states make a roster task ACTIVE / INACTIVE (the status a task of
 	// the roster has has no say in the reconciliation rule: the model spares every roster task)
-	us := rcMethod(pkg, "Manager", "updateTaskStatus")
+	us := updateFn
 	if us == nil {
 		die("Manager.updateTaskStatus not found")
 	}
@@ -510,6 +595,16 @@ func reconcileRule() string {
 			return ""
 		}
 		l, ok := a.Lhs[0].(*ast.SelectorExpr)
+		if ok && (l.Sel.Name == "executorId" || l.Sel.Name == "agentId") {
+			// the refresh of the ids of the roster task from the status
+			switch w.val(a.Rhs[0], env).kind {
+			case svExecIdStr:
+				return "set-exec"
+			case svAgentIdStr:
+				return "set-agent"
+			}
+			return ""
+		}
 		if !ok || l.Sel.Name != "status" {
 			return ""
 		}
@@ -533,6 +628,37 @@ func reconcileRule() string {
 	}
 	stab := rcTable("updateTaskStatus (ACTIVE / INACTIVE)", []*form{uw.markers["act"], uw.markers["deact"]},
 		func(a string) bool { return strings.HasPrefix(a, "S:") }, spoints)
+	// is the refresh of agentId / executorId only done when the status carries the field?
+	refreshGuarded := true
+	for _, mk := range [][2]string{{"set-exec", "HasExec"}, {"set-agent", "HasAgent"}} {
+		f := uw.markers[mk[0]]
+		if f == nil {
+			continue
+		}
+		bad := fAnd(f, fNot(fAtom(mk[1])))
+		set := map[string]bool{}
+		bad.atoms(set)
+		var as []string
+		for a := range set {
+			as = append(as, a)
+		}
+		sort.Strings(as)
+		if len(as) > 18 {
+			die("updateTaskStatus: too many conditions around the refresh of the task ids (%d)", len(as))
+		}
+		for mask := 0; mask < 1<<len(as); mask++ {
+			if bad.eval(func(a string) bool {
+				for i, x := range as {
+					if x == a {
+						return mask&(1<<i) != 0
+					}
+				}
+				return false
+			}) {
+				refreshGuarded = false
+			}
+		}
+	}
 	var activating, deactivating []int32
 	for i, v := range stateVals {
 		if stab[0][i] && stab[1][i] {
@@ -581,6 +707,8 @@ func reconcileRule() string {
 	fmt.Fprintf(&b, "Definition recon_guarded : bool := %v.\n", guarded)
 	b.WriteString("(* reconciliationCall (installed in the SUBSCRIBED chain): is the implicit RECONCILE sent on every\n   SUBSCRIBED event, unconditionally? *)\n")
 	fmt.Fprintf(&b, "Definition reconcile_every_subscribed : bool := %v.\n", everySubscribed)
+	b.WriteString("(* updateTaskStatus: is the refresh of the agent id / executor id of the roster task done only when\n   the status carries the field (a reconciliation answer need not)? *)\n")
+	fmt.Fprintf(&b, "Definition status_refresh_guarded : bool := %v.\n", refreshGuarded)
 	b.WriteString("(* doKillTasks (KillTasks, Cleanup): do the tasks of the set that are not ACTIVE get a KILL call too? *)\n")
 	fmt.Fprintf(&b, "Definition kill_inactive : bool := %v.\n", killInactive)
 	b.WriteString("(* the states in which Mesos considers a task alive (mesos.proto: non-terminal, reachable) *)\n")
